@@ -137,6 +137,41 @@ Qed.
 Lemma nth_error_map_inv {A B} (f : A -> B) l i y : nth_error (map f l) i = Some y -> exists x, nth_error l i = Some x /\ f x = y.
 Proof. rewrite nth_error_map. destruct (nth_error l i); cbn; intros H; inversion H; eauto. Qed.
 
+(* the value a sprite name has is the id of every sprite of that name in the written table *)
+Lemma sprite_lookup_is_table_value wraps decls consts w :
+  const_ids SeqAdd 0 0 0 decls = Ok consts -> written_ids wraps 1 0 decls = Ok w -> consistent consts = true ->
+  map fst consts = map sd_name decls /\ length w = length decls /\
+  forall n v, lookup_const n consts = Some v ->
+    (exists i d, nth_error decls i = Some d /\ sd_name d = n) /\
+    (forall i d, nth_error decls i = Some d -> sd_name d = n -> nth_error w i = Some (u32 v)).
+Proof.
+  intros C W Cs. destruct (const_vs_written wraps decls 0 0 0 w eq_refl W) as (cs & C1 & C2 & C3).
+  rewrite C in C1. inversion C1; subst cs. clear C1.
+  split; [exact C3|]. split. { rewrite <- C2, map_length, <- (map_length fst), C3, map_length. reflexivity. }
+  intros n v L. pose proof (lookup_const_In _ _ _ L) as Hin. split.
+  - apply In_nth_error in Hin. destruct Hin as (i & Hi).
+    assert (Hn : nth_error (map fst consts) i = Some n) by (now rewrite nth_error_map, Hi).
+    rewrite C3 in Hn. apply nth_error_map_inv in Hn. destruct Hn as (d & Hd & Hdn). eauto.
+  - intros i d Hd Hdn.
+    assert (Hn : nth_error (map fst consts) i = Some n) by (rewrite C3, nth_error_map, Hd; cbn; now rewrite Hdn).
+    apply nth_error_map_inv in Hn. destruct Hn as ([n' v'] & Hc & Hf). cbn in Hf. subst n'.
+    assert (v' = v) by (eapply consistent_spec; eauto using nth_error_In). subst v'.
+    rewrite <- C2, nth_error_map, Hc. reflexivity.
+Qed.
+
+Lemma lookup_const_none n : forall l, lookup_const n l = None -> ~ In n (map fst l).
+Proof.
+  induction l as [|[k x] l IH]; cbn [lookup_const map fst]; intros H; [tauto|].
+  destruct (Nat.eqb_spec k n); [discriminate|]. intros [E|E]; [congruence|]. now apply IH.
+Qed.
+
+Lemma index_of_none n : forall l, index_of n l = None -> ~ In n l.
+Proof.
+  induction l as [|x l IH]; cbn [index_of]; intros H; [tauto|].
+  destruct (Nat.eqb_spec x n); [discriminate|]. destruct (index_of n l); [discriminate|].
+  intros [E|E]; [congruence|]. now apply IH.
+Qed.
+
 Theorem anm_name_value_is_table_value inp tbl args :
   compile_anm T inp = Ok (tbl, args) ->
   length tbl = length (concat (ai_entries inp)) /\
